@@ -31,7 +31,10 @@ RULE = (
     "Run = request stream from the C01 grammar (valid pipelines up to depth 80, smuggling mutations, byte mutations, "
     "truncation) x per-request handler behaviour (read/ignore/partial/sleep/raise/timeout/cancel/non-response/stream/"
     "write-then-raise/lazy attributes/upgrade) x segmentation policy per direction x client read pause x kill "
-    "(reset/eof/half-close at byte k or before loop step k). Non-trivial: >=2 requests reached a handler and at least "
+    "(reset/eof/half-close at byte k or before loop step k); 12 %: one handler fails after it started a streamed response "
+    "(stage prepare/write/short Content-Length body/suspended/completed x end exception/timeout/cancel/HTTPException/"
+    "non-response); 7 %: a client keeps one handler busy and sends 12-100 separate writes of unparsable input (some mixed "
+    "with well-formed requests). Non-trivial: >=2 requests reached a handler and at least "
     "one of {error response, transport pause, kill fired, client read pause}. Distinct = interleaving signature."
 )
 COMPONENTS = {
@@ -116,7 +119,7 @@ def gen(rng, tier, index):
     rd_pause = None
     if rng.random() < 0.2:
         rd_pause = [rng.choice([0, 1, 5]), rng.choice([5, 50, 500])]
-    return {
+    scn = {
         "stream": stream, "writes": writes, "behaviours": behaviours, "kill": kill, "rd_pause": rd_pause,
         "end": rng.choice(["keep", "keep", "close", "half_close"]), "end_delay": rng.choice([0, 5, 50]),
         "pol_c2s": rng.choice(["whole", "whole", "byte", "tiny", "small", "mixed", "after_cr"]),
@@ -127,6 +130,55 @@ def gen(rng, tier, index):
                       "max_headers": rng.choice([128, 128, 20]), "read_bufsize": rng.choice([65536, 64, 16])},
         "meta": {"mutation": s["mutation"], "nreq": s["nreq"]},
     }
+    # --- features added after the third round of seeded changes; drawn last so that every other scenario
+    # stays what it was
+    extra = rng.random()
+    if extra < 0.12:
+        # a handler that fails (or ends oddly) AFTER it has started a streamed response: every stage of the
+        # response x every way of ending.  Only the started response may be on the wire for that request.
+        stage, how = rng.choice(FAIL_STAGES), rng.choice(FAIL_HOWS)
+        if stage == "clwrite" and how == "none":
+            # (returning normally with a body shorter than the announced Content-Length is a handler that
+            # breaks its own framing, not a failing one: left out)
+            how = "exc"
+        beh = "fail_after:" + stage + "-" + how
+        scn["behaviours"][rng.randrange(len(scn["behaviours"]))] = beh
+    elif extra < 0.19:
+        _flood(rng, scn)
+    return scn
+
+
+FAIL_STAGES = ["prepare", "write", "write", "clwrite", "pause", "eof"]
+FAIL_HOWS = ["none", "exc", "timeout", "timeout", "realtimeout", "cancelled", "http403", "nonresp"]
+JUNK = ["this is not http %d\r\n\r\n", "GET /j%d HTTP/9.9\r\nHost: h.test\r\n\r\n",
+        "GET /j%d HTTP/1.1\r\nHost: h.test\r\nBad Header\r\n\r\n", "G\x00T /%d HTTP/1.1\r\n\r\n",
+        "POST /j%d HTTP/1.1\r\nHost: h.test\r\nContent-Length: x\r\n\r\n", "%d\r\n\r\n"]
+
+
+def _flood(rng, scn):
+    """A client that keeps one handler busy and meanwhile sends many separate pieces - unparsable input,
+    mixed with a few well-formed requests - each in its own write: whatever the server queues for them
+    (requests waiting for a handler, errors waiting for their 400) has to stay bounded."""
+    p = rng.randint(0, 2)
+    pre = "".join(G.serialize(G.gen_request(rng, i, body_max=30)) for i in range(p))
+    slow = "GET /slow HTTP/1.1\r\nHost: h.test\r\nX-Tag: slow\r\n\r\n"
+    k = rng.choice([12, 31, 33, 40, 64, 100])
+    style = rng.choice(["junk", "junk", "mixed", "one"])
+    kind = rng.choice(JUNK)
+    pieces = []
+    for i in range(k):
+        if style == "mixed" and rng.random() < 0.3:
+            pieces.append("GET /ok%d HTTP/1.1\r\nHost: h.test\r\n\r\n" % i)
+        else:
+            pieces.append((kind if style == "one" else rng.choice(JUNK)) % i)
+    first = pre + slow
+    scn["stream"] = first + "".join(pieces)
+    scn["writes"] = [[0, len(first)]] + [[rng.choice([0, 1, 1, 2, 3]), len(x)] for x in pieces]
+    scn["behaviours"] = [rng.choice(["read", "ignore", "http204", "lazy"]) for _ in range(p)] + \
+        [rng.choice(["sleep:400", "sleep:3000"]), rng.choice(BEHAVIOURS)]
+    scn["meta"] = {"mutation": "flood_" + style, "nreq": p + 1}
+    if rng.random() < 0.7:
+        scn["kill"] = None
 
 
 def shrink(scn):
@@ -150,6 +202,17 @@ def shrink(scn):
             yield dict(scn, behaviours=scn["behaviours"][:i] + ["read"] + scn["behaviours"][i + 1:])
     if scn["end"] != "keep":
         yield dict(scn, end="keep")
+    # fewer pieces: drop the last writes together with their bytes (floods of many small writes)
+    if len(scn["writes"]) > 2:
+        for keep in sorted({len(scn["writes"]) // 2, len(scn["writes"]) - 1}):
+            nbytes = sum(w_[1] for w_ in scn["writes"][:keep])
+            yield dict(scn, stream=scn["stream"][:nbytes], writes=[list(w_) for w_ in scn["writes"][:keep]])
+    # a handler failing after it started a response: the plainest stage / the shortest sleep that still fails
+    for i, b in enumerate(scn["behaviours"]):
+        if b.startswith("fail_after:") and not b.startswith("fail_after:write-"):
+            yield dict(scn, behaviours=scn["behaviours"][:i] + ["fail_after:write-" + b.partition("-")[2]] + scn["behaviours"][i + 1:])
+        if b == "sleep:3000":
+            yield dict(scn, behaviours=scn["behaviours"][:i] + ["sleep:400"] + scn["behaviours"][i + 1:])
     # drop one request (cut at reference message boundaries)
     data = G.enc(scn["stream"])
     msgs, verdict = http1.parse_requests(data, _limits(scn))
@@ -166,6 +229,15 @@ def shrink(scn):
             yield dict(scn, server_kw=dict(kw, **{k: v}))
 
 
+import re as _re
+
+_STATUS_LINE = _re.compile(rb"HTTP/1\.[01] (\d\d\d) ")
+# judgments made on the response stream: meaningless (consequences only) once a started response has been
+# overwritten by another one - that is reported once, under its cause, as one_response_once_started
+WIRE_RULES = ("well_formed_responses", "in_order_once", "at_most_one_response", "complete_responses", "reject_closes",
+              "no_orphan_request")
+
+
 def _limits(scn):
     kw = scn["server_kw"]
     return {"max_line_size": kw["max_line_size"], "max_field_size": kw["max_field_size"], "max_headers": kw["max_headers"]}
@@ -176,7 +248,11 @@ def run(scn, ch, log=False):
 
     viols = []
 
+    corrupt = []  # set once a second response head was found inside a started response (see below)
+
     def violate(inv, key, msg):
+        if corrupt and inv in WIRE_RULES:
+            return
         if not any(v["invariant"] == inv for v in viols):
             viols.append({"invariant": inv, "key": key, "message": msg})
 
@@ -220,12 +296,27 @@ def run(scn, ch, log=False):
             loop.sim_call_later(t0 * 0.001, hold)
         cap = getattr(web_protocol, "MAX_MSG_QUEUE_SIZE", 32)
         proto = str_.protocol
-        state = {"maxq": 0}
+        state = {"maxq": 0, "maxall": 0, "maxerr": 0}
 
         ErrInfo = getattr(web_protocol, "_ErrInfo", ())
 
         def step_inv():
             q = getattr(proto, "_messages", None)
+            if q is not None and len(q) > state["maxall"]:
+                # everything the connection holds for later: parsed requests waiting for a handler and
+                # parse errors waiting for their 400 (one entry per read that hit unparsable input).
+                # Error entries are no requests, so by themselves they do not count towards the cap
+                # (re-parsing an over-long buffered line while reading is paused can add a few); but a
+                # server that has more than the cap queued and still reads on lets the peer grow the
+                # queue for as long as one handler stays busy.
+                state["maxall"] = len(q)
+                nerr = sum(1 for m_, _ in q if isinstance(m_, ErrInfo))
+                state["maxerr"] = max(state["maxerr"], nerr)
+                if len(q) > cap and len(q) - nerr <= cap and not str_._read_paused \
+                        and not (str_._closed or str_._closing):
+                    violate("pipeline_cap", "queue_over_cap_and_still_reading",
+                            f"{len(q)} entries queued behind the running handler ({nerr} of them parse errors "
+                            f"waiting for their 400; cap {cap}) and the server has not stopped reading")
             if q is not None and len(q) > state["maxq"]:
                 n = sum(1 for m_, _ in q if not isinstance(m_, ErrInfo))
                 if n > state["maxq"]:
@@ -256,6 +347,28 @@ def run(scn, ch, log=False):
         killed = any(k.startswith("kill_") for k in loop.faults) or step_capped
         finals = [r for r in resps if not r.get("interim")]
         complete_finals = [r for r in finals if r["complete"]]
+        # A request whose handler has started a response gets that response and nothing else: between the
+        # moment its handler was called and the moment the next handler is called, the server writes one
+        # final response head.  Judged textually on the bytes the client received (the bodies these handlers
+        # write are the harness' own and contain no status line), so it also holds when the second head sits
+        # inside the unfinished body of the first, where the splitter can only say "malformed".
+        rx = bytes(cl.received)
+        for i, rec in enumerate(obs.seen):
+            how = rec.get("started")
+            if how is None or rec.get("out0") is None:
+                continue
+            lo = rec["out0"]
+            hi = obs.seen[i + 1]["out0"] if i + 1 < len(obs.seen) and obs.seen[i + 1].get("out0") is not None else len(rx)
+            heads = [m for m in _STATUS_LINE.finditer(rx, lo, min(hi, len(rx))) if m.group(1)[:1] != b"1"]
+            if len(heads) > 1:
+                corrupt.append(i)
+                key = "second_head_after_started_response:" + {"http403": "http_exception", "nonresp": "non_response_returned"}.get(how, how)
+                if not any(v["key"] == key for v in viols):
+                    viols.append({"invariant": "one_response_once_started", "key": key, "message":
+                                  f"handler call #{i} ({scn['behaviours'][i % len(scn['behaviours'])] if scn['behaviours'] else '?'}) "
+                                  f"started a response and then ended with '{how}'; the server wrote {len(heads)} response "
+                                  f"heads for this one request (statuses {[int(m.group(1)) for m in heads]}): "
+                                  f"{rx[lo:min(hi, len(rx))][:300]!r}"})
         for r in resps:
             if r["framing"] == "eof" and not killed:
                 nxt = b"\r\nX-Resp: " in r["body"]
@@ -403,7 +516,11 @@ def run(scn, ch, log=False):
             "queue_paused": int(bool(st["faults"].get("pause_reading"))), "resp_4xx": int(any(400 <= s < 500 for s in statuses)),
             "resp_5xx": int(any(s >= 500 for s in statuses)), "handler_cancelled": int(obs.handler_cancelled > 0),
             "upgraded": int(upgraded), "step_capped": int(step_capped),
+            "started_then_" + "+".join(sorted(set(str(r.get("started")) for r in obs.seen if r.get("started") not in (None, "none")))): 1,
+            "queue_all_reached_cap": int(state["maxall"] >= cap),
+            "err_entries_queued_ge8": int(state["maxerr"] >= 8),
         }
+        probes.pop("started_then_", None)
         res = {
             "violations": viols, "nontrivial": bool(nontrivial), "sig": st["sig"], "digest": st["digest"],
             "steps": st["steps"], "vtime": st["vtime"], "faults": st["faults"],
